@@ -254,8 +254,30 @@ struct BarState {
     bool overlap = false;
 } bar;
 
+//! which entry point a thread uses in a generation (per thread x generation), and whether the generation's
+//! calls carry an action (per generation: the action that runs is the LAST ARRIVER's, so all calls of one
+//! generation carry it or none does)
+struct BarPlan {
+    std::vector<std::vector<char>> use_yield; // [thread][generation]
+    std::vector<char> with_action;            // [generation]
+    static BarPlan uniform(int n, int G, bool y, bool a) {
+        BarPlan p;
+        p.use_yield.assign((size_t)n, std::vector<char>((size_t)G, (char)y));
+        p.with_action.assign((size_t)G, (char)a);
+        return p;
+    }
+};
+
+template <class Barrier>
+void barrier_execute(int n, int G, const BarPlan& plan, int extra);
+
 template <class Barrier>
 void barrier_execute(int n, int G, bool use_yield, bool with_action, int extra) {
+    barrier_execute<Barrier>(n, G, BarPlan::uniform(n, G, use_yield, with_action), extra);
+}
+
+template <class Barrier>
+void barrier_execute(int n, int G, const BarPlan& plan, int extra) {
     bar = BarState();
     bar.n = n;
     bar.G = G;
@@ -285,6 +307,7 @@ void barrier_execute(int n, int G, bool use_yield, bool with_action, int extra) 
                 bar.actions[(size_t)g]++;
                 SCHED_CHECK(bar.actions[(size_t)g] == 1, "C11/barrier-action-twice", "action of generation " << g << " ran twice");
             };
+            const bool use_yield = plan.use_yield[(size_t)me][(size_t)g] != 0, with_action = plan.with_action[(size_t)g] != 0;
             if (with_action) {
                 if (use_yield) b.wait_yield(action);
                 else b.wait(action);
@@ -296,7 +319,7 @@ void barrier_execute(int n, int G, bool use_yield, bool with_action, int extra) 
             vsched::obs("leave");
             SCHED_CHECK(bar.arrivals[(size_t)g] == n, "C11/barrier-early-release",
                         "T" << me << " left generation " << g << " after only " << bar.arrivals[(size_t)g] << " of " << n << " arrivals");
-            if (with_action)
+            if (plan.with_action[(size_t)g])
                 SCHED_CHECK(bar.actions[(size_t)g] == 1, "C11/barrier-release-before-action",
                             "T" << me << " left generation " << g << " but the action ran " << bar.actions[(size_t)g] << " times");
             bar.leaves[(size_t)g]++;
@@ -313,7 +336,7 @@ void barrier_execute(int n, int G, bool use_yield, bool with_action, int extra) 
     }
     for (int g = 0; g < G; ++g) {
         SCHED_CHECK(bar.leaves[(size_t)g] == n, "C11/barrier-lost-thread", "generation " << g << ": " << bar.leaves[(size_t)g] << " of " << n << " left");
-        if (with_action) SCHED_CHECK(bar.actions[(size_t)g] == 1, "C11/barrier-action-count", "generation " << g << ": action ran " << bar.actions[(size_t)g] << " times");
+        if (plan.with_action[(size_t)g]) SCHED_CHECK(bar.actions[(size_t)g] == 1, "C11/barrier-action-count", "generation " << g << ": action ran " << bar.actions[(size_t)g] << " times");
     }
 }
 
@@ -340,6 +363,52 @@ void barrier_scenario(pbt::Source& src, const char* kind) {
 }
 
 } // namespace
+
+//! MIXED entry points: every thread chooses wait() or wait_yield() anew in every generation (the two are documented
+//! as interchangeable ways of crossing the same barrier), and generations with and without action alternate
+template <class Barrier>
+void barrier_mixed_scenario(pbt::Source& src, const char* kind) {
+    int n = (int)src.range(2, 4);
+    int G = (int)src.range(1, 5);
+    BarPlan plan = BarPlan::uniform(n, G, false, true);
+    bool mixed_gen = false;
+    for (int g = 0; g < G; ++g) {
+        plan.with_action[(size_t)g] = (char)!src.chance(64);
+        int ny = 0;
+        for (int t = 0; t < n; ++t) ny += (plan.use_yield[(size_t)t][(size_t)g] = (char)src.boolean());
+        if (ny != 0 && ny != n) mixed_gen = true;
+    }
+    int extra = (int)src.range(0, 1);
+    bool spurious = src.chance(48);
+    if (spurious) pbt::label("spurious_wakeups");
+    if (pbt::verbose()) {
+        PBT_LOG(kind << " n=" << n << " generations=" << G << " plan (y = wait_yield, w = wait, per thread):");
+        for (int t = 0; t < n; ++t) {
+            PBT_LOG(" T" << t << "=");
+            for (int g = 0; g < G; ++g) PBT_LOG((plan.use_yield[(size_t)t][(size_t)g] ? 'y' : 'w'));
+        }
+        PBT_LOG("\n");
+    }
+    vsched::Options opt;
+    opt.spurious_wakeups = spurious;
+    vsched::Run run(src, opt);
+    barrier_execute<Barrier>(n, G, plan, extra);
+    if (mixed_gen) {
+        pbt::nontrivial();
+        pbt::label("generation_with_both_entry_points");
+    }
+    if (bar.overlap) pbt::label("next_generation_entered_before_all_left");
+}
+
+PBT_PROPERTY(barrier_mixed) {
+    if (src.boolean()) {
+        pbt::label("spin");
+        barrier_mixed_scenario<tlx::ThreadBarrierSpin>(src, "ThreadBarrierSpin");
+    } else {
+        pbt::label("mutex");
+        barrier_mixed_scenario<tlx::ThreadBarrierMutex>(src, "ThreadBarrierMutex");
+    }
+}
 
 PBT_PROPERTY(barrier_mutex) { barrier_scenario<tlx::ThreadBarrierMutex>(src, "ThreadBarrierMutex"); }
 PBT_PROPERTY(barrier_spin) { barrier_scenario<tlx::ThreadBarrierSpin>(src, "ThreadBarrierSpin"); }
@@ -439,11 +508,14 @@ struct BarTemplate {
     unsigned bound;
     bool spin, yield;
     int n, G;
+    bool mixed = false; // thread t uses wait_yield() in generation g iff (t + g) is odd
 };
 const BarTemplate BAR_TEMPLATES[] = {
     {"mutex barrier n=2 G=2", 3, false, false, 2, 2}, {"mutex barrier n=3 G=2", 2, false, false, 3, 2},
     {"spin barrier wait n=2 G=2", 3, true, false, 2, 2}, {"spin barrier wait_yield n=2 G=3", 3, true, true, 2, 3},
     {"spin barrier wait n=3 G=2", 2, true, false, 3, 2}, {"mutex barrier n=2 G=3", 3, false, false, 2, 3},
+    {"mutex barrier mixed wait/wait_yield n=2 G=2", 3, false, false, 2, 2, true}, {"spin barrier mixed wait/wait_yield n=2 G=2", 3, true, false, 2, 2, true},
+    {"mutex barrier mixed wait/wait_yield n=3 G=2", 2, false, false, 3, 2, true},
 };
 const size_t N_BAR = sizeof(BAR_TEMPLATES) / sizeof(BAR_TEMPLATES[0]);
 } // namespace
@@ -468,7 +540,13 @@ PBT_PROPERTY(sync_exhaustive) {
                 sem_execute(T.initial, T.scripts, T.main_script, /*exploring=*/true);
             } else {
                 const BarTemplate& B = BAR_TEMPLATES[t - NS];
-                if (B.spin) barrier_execute<tlx::ThreadBarrierSpin>(B.n, B.G, B.yield, true, 0);
+                if (B.mixed) {
+                    BarPlan plan = BarPlan::uniform(B.n, B.G, false, true);
+                    for (int th = 0; th < B.n; ++th)
+                        for (int g = 0; g < B.G; ++g) plan.use_yield[(size_t)th][(size_t)g] = (char)((th + g) & 1);
+                    if (B.spin) barrier_execute<tlx::ThreadBarrierSpin>(B.n, B.G, plan, 0);
+                    else barrier_execute<tlx::ThreadBarrierMutex>(B.n, B.G, plan, 0);
+                } else if (B.spin) barrier_execute<tlx::ThreadBarrierSpin>(B.n, B.G, B.yield, true, 0);
                 else barrier_execute<tlx::ThreadBarrierMutex>(B.n, B.G, B.yield, true, 0);
             }
         });
